@@ -785,6 +785,8 @@ CORPUS = [
     'names str[2,1] = [["ab"],["c"]]   # strings',
     "flags bool[3] = [true,false,true]",
     "big int[:,1] = [[9223372036854775807],[-9223372036854775808]]",
+    # instances of C13_literal_roundtrip_escaped_sq / C13_modify_roundtrip_escaped
+    'a str = \'x\'\na = "say \\"hi\\""\nb str = \'it\\\'s # not\'  # c\nb   =  \'\\\'t is\' # c',
     # instances of C13_directive_lines_lexed
     "a int = 1\n   !constant   # frozen\nb int = 2", "  $unit length = 1 m\na int = 1",
     "a int = 1\n    $unit\tmass = 2 kg # c\nb int = 2",
